@@ -99,7 +99,8 @@ class _Abs:
     """Abstract state used only to decide which steps are enabled (legal for the peer / sensible for the app)."""
 
     __slots__ = ('model', 'role', 'peer_send_open', 'peer_dead', 'local_pub_open', 'local_pub_credit', 'local_cancelled',
-                 'local_late', 'fut_done', 'conn_dead', 'peer_cancelled', 'sub_cancelled', 'peer_got_terminal', 'counts')
+                 'local_late', 'fut_done', 'conn_dead', 'peer_cancelled', 'sub_cancelled', 'peer_got_terminal', 'counts',
+                 'peer_in_run')
 
     def __init__(self, model, role):
         self.model = model
@@ -115,6 +116,7 @@ class _Abs:
         self.peer_cancelled = False
         self.sub_cancelled = False
         self.peer_got_terminal = False
+        self.peer_in_run = False        # the peer has sent the first fragment of an element and not yet the last
         self.counts = {}
 
     def copy(self):
@@ -139,14 +141,17 @@ def _enabled(a):
     m, r = a.model, a.role
     peer_has_elements = (r == 'requester') or m == 'channel'
     # ---- peer frames
-    if not a.peer_dead:
+    if not a.peer_dead and a.peer_in_run:
+        # inside a fragment run the peer may only send the rest of that frame on this stream
+        out += ['p:frag_end']
+    elif not a.peer_dead:
         if r == 'requester':
             # peer is the responder
             if a.peer_send_open:
                 if m == 'rr':
                     out += ['p:next_complete', 'p:complete', 'p:error']
                 else:
-                    out += ['p:next', 'p:next_complete', 'p:complete', 'p:error']
+                    out += ['p:next', 'p:next_complete', 'p:complete', 'p:error', 'p:frag']
             elif m == 'channel':
                 out += ['p:error']
             if m == 'channel':
@@ -161,7 +166,7 @@ def _enabled(a):
                 out += ['p:req1', 'p:reqmax', 'p:cancel']
             else:
                 if a.peer_send_open:
-                    out += ['p:next', 'p:next_complete', 'p:complete']
+                    out += ['p:next', 'p:next_complete', 'p:complete', 'p:frag']
                 out += ['p:error', 'p:req1', 'p:reqmax', 'p:cancel']
     # ---- local application actions
     if r == 'requester':
@@ -196,6 +201,10 @@ def _apply(a, s):
         a.conn_dead = True
     elif a.conn_dead:
         a.local_late += 1
+    elif s == 'p:frag':
+        a.peer_in_run = True
+    elif s == 'p:frag_end':
+        a.peer_in_run = False
     elif s in ('p:next_complete', 'p:complete'):
         a.peer_send_open = False
         if m in ('rr', 'stream') and r == 'requester':
@@ -353,6 +362,7 @@ async def _execute(model, role, endpoint, history, spacing, rng, link_kind, frag
         return {'type': 'PAYLOAD', 'sid': sid, 'next': next_, 'complete': complete, 'data': d, 'metadata': None}
 
     res.peer_elements = []
+    frag_state = {}
 
     async def do(step):
         kind, name = step.split(':')
@@ -363,6 +373,12 @@ async def _execute(model, role, endpoint, history, spacing, rng, link_kind, frag
                 f = peer_payload(True, True)
             elif name == 'complete':
                 f = peer_payload(False, True)
+            elif name == 'frag':
+                f = peer_payload(True, False)
+                f['follows'] = True
+                frag_state['first'] = f['data']
+            elif name == 'frag_end':
+                f = {'type': 'PAYLOAD', 'sid': sid, 'next': True, 'complete': False, 'data': b'-rest', 'metadata': None}
             elif name == 'error':
                 f = {'type': 'ERROR', 'sid': sid, 'code': 0x201, 'data': b'peer-error'}
             elif name == 'req1':
@@ -371,7 +387,9 @@ async def _execute(model, role, endpoint, history, spacing, rng, link_kind, frag
                 f = {'type': 'REQUEST_N', 'sid': sid, 'n': MAX_N}
             elif name == 'cancel':
                 f = {'type': 'CANCEL', 'sid': sid}
-            if f['type'] == 'PAYLOAD' and f['next']:
+            if name == 'frag_end':
+                res.peer_elements.append((frag_state.pop('first', b'') + f['data'], b''))
+            elif f['type'] == 'PAYLOAD' and f['next'] and not f.get('follows'):
                 res.peer_elements.append((f['data'], b''))
             world.log('peer_send', step=step)
             peer.send(f)
